@@ -196,7 +196,10 @@ class VLoop(asyncio.SelectorEventLoop):
                 pick = self._choose(jobs, busy)
                 if pick is not None:
                     if self.policy == 'eager' and self.chooser is None:
-                        self.gex.run_to_end(pick)
+                        # atomically to its end - or to a point at which it is to be held
+                        self.gex.step(pick)
+                        while not pick.done and not self._held(pick):
+                            self.gex.step(pick)
                     else:
                         self.gex.step(pick)
                     return orig(0)
@@ -222,28 +225,33 @@ class VLoop(asyncio.SelectorEventLoop):
     def time(self):
         return self.vt
 
+    def _held(self, j):
+        if j.longpark is True:
+            # held wherever it is: bounded by decisions and by virtual time (a blocked thread comes back eventually)
+            if j.release_at is None:
+                j.release_at = self.vt + 120.0
+            return self.vt < j.release_at
+        if j.longpark in ('job-end', 'start') and j.label == j.longpark:
+            # held before it starts, or where its work is done but its result not yet delivered, for a bounded virtual time
+            if j.release_at is None:
+                j.release_at = self.vt + j.park_secs
+            return self.vt < j.release_at
+        return False
+
     def _choose(self, jobs, busy):
         self.decisions += 1
         if self.chooser is not None:
             return self.chooser(self, jobs, busy)
-        def lp(j):
-            if j.longpark is True:
-                # held wherever it is: bounded by decisions and by virtual time (a blocked thread comes back eventually)
-                if j.release_at is None:
-                    j.release_at = self.vt + 120.0
-                return self.vt < j.release_at
-            if j.longpark in ('job-end', 'start') and j.label == j.longpark:
-                # held before it starts, or where its work is done but its result not yet delivered, for a bounded virtual time
-                if j.release_at is None:
-                    j.release_at = self.vt + j.park_secs
-                return self.vt < j.release_at
-            return False
+        lp = self._held
         overdue = [j for j in jobs if (j.waited >= 2000 if j.longpark is True else (not lp(j) and j.waited >= self.max_park))]
         if overdue:
             return overdue[0]
         pol = self.policy
         if pol == 'eager':
-            return jobs[0]
+            for j in jobs:
+                if not lp(j):
+                    return j
+            return None
         if not busy:
             cands = [j for j in jobs if not lp(j)]
             return self.rng.choice(cands) if cands else None
